@@ -175,6 +175,32 @@ theorem markSplit_nodes : ∀ (l : List Nat) (m : Mem), (markSplit m l).nodes = 
       · rfl
     · rfl
 
+theorem markSplit_ext : ∀ (l : List Nat) (m : Mem), Ext m (markSplit m l)
+  | [], m => Ext.refl m
+  | i :: rest, m => by
+    unfold markSplit
+    refine Ext.trans ?_ (markSplit_ext rest _)
+    have key : ∀ (blk : Nat) (bl : Block), m.blocks[blk]? = some bl →
+        Ext m { m with blocks := m.blocks.set blk { bl with split := true } } := by
+      intro blk bl hbl b' bl' hb'
+      by_cases hbb : blk = b'
+      · subst hbb
+        rw [hbl] at hb'; cases hb'
+        exact ⟨_, List.getElem?_set_self (lt_of_getElem? hbl), rfl, rfl⟩
+      · exact ⟨bl', by simp [List.getElem?_set_ne hbb, hb'], rfl, rfl⟩
+    split
+    · split
+      · split
+        · split
+          · split
+            · rename_i _ blk _ _ bl hbl _
+              exact key blk bl hbl
+            · exact Ext.refl m
+          · exact Ext.refl m
+        · exact Ext.refl m
+      · exact Ext.refl m
+    · exact Ext.refl m
+
 theorem step_rc {cfg : Cfg} {s s' : Ledger} {op : Op} (h : RcAll s) (hc : Cov s op) (hr : step cfg s op = some s') : RcAll s' := by
   cases op with
   | new id size =>
@@ -193,7 +219,7 @@ theorem step_rc {cfg : Cfg} {s s' : Ledger} {op : Op} (h : RcAll s) (hc : Cov s 
       cases hf
       have := writeDirect_rc hR hc hw
       split
-      · exact this.of_nodes_eq (markSplit_nodes _ _)
+      · exact this.of_nodes_eq (markSplit_nodes _ _) (markSplit_ext _ _)
       · exact this
   | ack id n => exact on1_rc h (fun b m b1 hg hf R hR => mallocAck_rc hR (hc b hg) hf) hr
   | flush id => exact on1_rc h (fun b m b1 _ hf R hR => flush_rc hR hf) hr
